@@ -35,8 +35,9 @@ CHECKS = {
     text='Theorems (Coq, any condition behaviour whose truth depends on the index only, any trace, any start index): (find c) and (find/g c) on one trace return exactly '
          'filter P [i..m] ascending without duplicates and restore the index; (whenever c body) refines a for-loop over i..m that evaluates the body exactly once at each '
          'hit and returns the last body value; with ANY number of traces whenever and find/g leave every trace index, the set of traces and their extent as before '
-         '(position neutrality). count = length of find by C15/C14. PARTIAL: purity of the trace-reading fragment and the two-trace lock-step results are decided by '
-         'the differential check.' + DIFF,
+         '(position neutrality); T-ro: expressions built from literals, names, arithmetic, comparison, logic, bitwise operators, slice, if, do and e@k leave the state exactly as it '
+         'was (real evaluator, any fuel), so for such conditions find is pointwise given only that c can be evaluated at every index. count = length of find by C15/C14. '
+         'PARTIAL: purity of conditions with scoped references, virtual signals or user functions and the two-trace lock-step results are decided by the differential check.' + DIFF,
     technique='Coq proof (loop refinement by induction on fuel, restore invariant) + differential correspondence + brute-force scan oracle'),
  'C05': dict(
     text='Theorems (Coq): ~s / #s / alias / scoped and grouped references denote the concatenated full name; a missing signal raises; in-scope, in-group, in-scopes, all-scopes '
